@@ -1,11 +1,14 @@
 import Adlt.Lc.Pub
 import Adlt.Lc.Spec
 import Adlt.Lc.Listing
+import Adlt.Lc.Table
 /-! # C07 — final lifecycle table consistent with delivered messages; the listing
 
 Listing part: theorems about the model of `get_sorted_lifecycles_as_vec` for every table.
-Counts part: see `C07_counts_*` (strengthened incrementally; the executable statement `Spec.C07`
-is evaluated on the implementation's output on every run). -/
+Counts part: the published table at the end is the live table (`C07_listed_once`, `C07_listed_are_live`,
+`C07_live_are_listed`) and its counts add up (`C07_counts_sum`); the per-id clauses of the executable statement `Spec.C07`
+(each count = number of delivered messages with that id; every delivered id listed) are evaluated on the implementation's
+output on every run. -/
 namespace Props
 open Lcm
 
@@ -71,5 +74,56 @@ example :
                           { id := 1, start := 1700000000000000, resume := none },
                           { id := 2, start := 1700000000500000, resume := none } ]
     (t.map (·.id)).Nodup ∧ ({ id := 2, start := 1700000000500000, resume := none } : LcE) ∈ t := by decide
+
+/-! ## the published table at the end of the stream -/
+
+theorem eraseDups_of_nodup (l : List Nat) (h : l.Nodup) : l.eraseDups = l := by
+  induction l with
+  | nil => simp
+  | cons a t ih =>
+    rw [List.eraseDups_cons]
+    have hn := List.nodup_cons.mp h
+    have hf : t.filter (fun b => !b == a) = t := by
+      apply List.filter_eq_self.mpr
+      intro b hb
+      have : b ≠ a := fun hc => hn.1 (hc ▸ hb)
+      simp [this]
+    rw [hf, ih hn.2]
+
+/-- every lifecycle id is listed once -/
+theorem C07_listed_once (ms : List Msg) : Spec.C07listedOnce (observe (run ms)) = true := by
+  obtain ⟨_, _, _, t3⟩ := run_final ms
+  simp only [Spec.C07listedOnce, observe, List.map_map, beq_iff_eq]
+  have : (List.map ((fun x : TblObs => x.id) ∘ fun (x : Nat × Lc) =>
+      ({ id := x.1, ecu := x.2.ecu, n := x.2.nrMsgs, start := x.2.start, endT := x.2.endTime, resume := x.2.resume.isSome } : TblObs))
+      (run ms).published) = keys (run ms).published := rfl
+  rw [this, eraseDups_of_nodup _ t3]
+  simp [keys]
+
+/-- **no invalidated lifecycle is listed**: every listed entry is a lifecycle that is live at the end - never one that was
+    merged into another -, listed under its own id with its final ECU, message count, start and end -/
+theorem C07_listed_are_live (ms : List Msg) :
+    ∀ t ∈ (observe (run ms)).tbl, ∃ lc, Live (run ms).ecuMap lc ∧ lc.id = t.id ∧ t.ecu = lc.ecu ∧ t.n = lc.nrMsgs ∧
+      t.start = lc.start ∧ t.endT = lc.endTime := by
+  obtain ⟨_, _, t2, _⟩ := run_final ms
+  intro t ht
+  simp only [observe, List.mem_map] at ht
+  obtain ⟨kv, hkv, rfl⟩ := ht
+  obtain ⟨hl, hid⟩ := t2 kv hkv
+  exact ⟨kv.2, hl, hid, rfl, rfl, rfl, rfl⟩
+
+/-- ... and every live lifecycle is listed, with its final values -/
+theorem C07_live_are_listed (ms : List Msg) (lc : Lc) (hl : Live (run ms).ecuMap lc) :
+    ∃ t ∈ (observe (run ms)).tbl, t.id = lc.id ∧ t.ecu = lc.ecu ∧ t.n = lc.nrMsgs := by
+  obtain ⟨_, t1, _, _⟩ := run_final ms
+  have := assocGet_mem _ _ _ (t1 lc hl)
+  refine ⟨{ id := lc.id, ecu := lc.ecu, n := lc.nrMsgs, start := lc.start, endT := lc.endTime, resume := lc.resume.isSome }, ?_, rfl, rfl, rfl⟩
+  simp only [observe, List.mem_map]
+  exact ⟨(lc.id, lc), this, rfl⟩
+
+/-- **the counts add up**: the message counts of the listed lifecycles sum to the number of delivered messages -/
+theorem C07_counts_sum (ms : List Msg) : Spec.C07sum (observe (run ms)) = true := by
+  simp only [Spec.C07sum, observe, List.map_map, List.length_map, List.length_reverse, beq_iff_eq]
+  exact table_counts_sum ms
 
 end Props
